@@ -23,5 +23,8 @@ fn main() {
             Ok(v) => emit_line(&mut w, &v),
             Err(msg) => emit_line(&mut w, &json!({"panic": msg, "at": last_panic_location()})),
         }
+        // one line per case reaches the pipe before the next case starts: if the process dies
+        // (abort, stack overflow) the driver knows which case killed it
+        let _ = std::io::Write::flush(&mut w);
     }
 }
